@@ -10,6 +10,8 @@ import (
 	"net/netip"
 	"os"
 	"runtime/debug"
+	"sort"
+	"strconv"
 	"strings"
 	"sync"
 	"testing"
@@ -154,10 +156,9 @@ func (h *harness) configure() {
 	h.names = []string{"a", "b", "c", "d", "e", "f", "g", "h"}
 	h.maxPools = r.Src.Range(2, map[bool]int{false: 5, true: 7}[h.thorough], "max_pools")
 	r.Cfg("max_pools", h.maxPools)
-	h.lagMode = r.Src.Weighted([]int{2, 3, 3, 4}, "lag_mode")
+	h.lagMode = r.Src.Weighted([]int{2, 3, 3, 5}, "lag_mode")
 	r.Cfg("lag_mode", []string{"none", "mild", "heavy", "own-writes-trickle"}[h.lagMode])
 	h.pInter = []int{0, 80, 250, 500}[r.Src.Weighted([]int{2, 3, 3, 2}, "interleave_level")]
-	r.Cfg("interleave_permille", h.pInter)
 	lvl := r.Src.Weighted([]int{3, 4, 3}, "fault_level")
 	r.Cfg("fault_level", lvl)
 	if lvl > 0 {
@@ -186,7 +187,11 @@ func (h *harness) configure() {
 	}
 	if h.lagMode == 3 {
 		h.envW[2] += 10 // deletions racing with the echo of the controller's own writes
+		if h.pInter < 250 {
+			h.pInter = 250
+		}
 	}
+	r.Cfg("interleave_permille", h.pInter)
 }
 
 func (h *harness) main() {
@@ -201,7 +206,7 @@ func (h *harness) main() {
 	}
 	h.startController()
 	h.settle()
-	nSteps := r.Src.Range(6, map[bool]int{false: 70, true: 160}[h.thorough], "n_steps")
+	nSteps := r.Src.Range(12, map[bool]int{false: 70, true: 160}[h.thorough], "n_steps")
 	r.Cfg("n_steps", nSteps)
 	for step := 0; step < nSteps; step++ {
 		switch r.Src.Weighted([]int{78, 12, 3, 4, 3}, "op") {
@@ -342,11 +347,19 @@ func (h *harness) envAction() {
 		}
 	case 2:
 		p := h.pickPool("delete_target")
-		if p != nil && r.Src.Chance(500, "delete_prefers_allocatable") {
-			for _, q := range h.api.sortedPools() {
-				if isTrue(q) && q.DeletionTimestamp == nil {
-					p = q
-					break
+		if p != nil {
+			// admins mostly delete what they have just created (a typo in the CIDR, the wrong pool went active)
+			switch r.Src.Weighted([]int{4, 4, 2}, "delete_bias") {
+			case 1:
+				ps := h.api.sortedPools()
+				sort.SliceStable(ps, func(i, j int) bool { return uidNum(ps[i]) > uidNum(ps[j]) })
+				p = ps[r.Src.Intn(min(2, len(ps)), "delete_recent")]
+			case 2:
+				for _, q := range h.api.sortedPools() {
+					if isTrue(q) && q.DeletionTimestamp == nil {
+						p = q
+						break
+					}
 				}
 			}
 		}
@@ -390,6 +403,11 @@ func (h *harness) envAction() {
 			h.inc.poolInf.resync()
 		}
 	}
+}
+
+func uidNum(p *v3.IPPool) int {
+	n, _ := strconv.Atoi(strings.TrimPrefix(string(p.UID), "u"))
+	return n
 }
 
 func (h *harness) pickPool(label string) *v3.IPPool {
